@@ -83,6 +83,12 @@ func (f ocsfFormatter) getMatchDetails(al plugintypes.AuditLog) []*objects.Enric
 	matchDetails := []*objects.Enrichment{}
 
 	for _, match := range al.Messages() {
+		data := match.Data()
+		if d, ok := data.(*MessageData); data == nil || (ok && d == nil) {
+			// part H without part K: the message carries its text but no rule data
+			matchDetails = append(matchDetails, &objects.Enrichment{Data: match.Message()})
+			continue
+		}
 		matchData, _ := json.Marshal(match.Data())
 		matchDetails = append(matchDetails, &objects.Enrichment{
 			Data:  string(matchData),
